@@ -1,6 +1,7 @@
 package props
 
 import (
+	"regexp"
 	"context"
 	"fmt"
 	"strings"
@@ -12,6 +13,9 @@ import (
 )
 
 func init() { Registry["C14"] = c14 }
+
+// eventToken matches the printed form of a harness event ({n}) inside a log line.
+var eventToken = regexp.MustCompile(`\{\d+\}`)
 
 func c14(r *ev.Reporter, args []string) {
 	r.Rule = "(a) queue: every push/pop sequence of length <= 2c+4 for capacity c (len checked after every step) vs. a drop-oldest reference deque; (b) EventLoop+Tick: every operation sequence up to depth D over {add A/B, defer, register plain/priority/run-in-add/adding/unregistering handlers, unregister (also twice), tick} on capacity {64,2}, oracle = FIFO/once/priority/deferral invariants over the recorded handler log; distinct = distinct sequences that dispatched >=2 events"
@@ -435,16 +439,19 @@ func loopRun(ops []int, capacity uint) (string, int) {
 	}
 	if fail == "" {
 		// reported drops (logger warnings) are exactly the oldest pending events
+		// (compared by the event each report names, not by wording or log level)
 		var got []string
 		for _, w := range lg.Warns {
-			got = append(got, w)
+			if eventToken.MatchString(w) {
+				got = append(got, w)
+			}
 		}
-		var want []string
-		for _, e := range wantDrops {
-			want = append(want, fmt.Sprintf("event queue is full, dropped event: %v", e))
+		ok := len(got) == len(wantDrops)
+		for i := 0; ok && i < len(got); i++ {
+			ok = strings.Contains(got[i], fmt.Sprint(wantDrops[i]))
 		}
-		if fmt.Sprint(got) != fmt.Sprint(want) {
-			fail = fmt.Sprintf("overflow reports %v, the dropped (oldest) events are %v", got, want)
+		if !ok {
+			fail = fmt.Sprintf("overflow reports %v, the dropped (oldest) events are %v", got, wantDrops)
 		}
 	}
 	return fail, dispatch
